@@ -237,7 +237,8 @@ func isElemConn(v ssa.Value, nx *ssa.Next) bool {
 		return true
 	}
 	if f, base, ok := loadedField(v); ok && f == "subConnRef.subConn" {
-		if e, isE := stripConv(base).(*ssa.Extract); isE && e.Tuple == ssa.Value(nx) && e.Index == 2 {
+		// the slot: the scan's value, or the container read under the scan's key
+		if rng, isR := nx.Iter.(*ssa.Range); isR && (&rangeLoop{Next: nx, Range: rng}).val(base) {
 			return true
 		}
 	}
